@@ -160,7 +160,9 @@ class C16(Check):
     level = "exploration"
     engine = "compsim+calsim"
     rule = ("one evaluation = (a) an op sequence on one built-in sampler with ties/inf/float32-overflowing losses and the read-only "
-            "monitor, (b) a stub-surrogate scenario (scripted fit/predict with ties, negative and huge scores) judged per call, "
+            "monitor (the arrays of the current call and every array lent at an earlier call; a quarter of the histories are lent as "
+            "views of one preallocated buffer), (b) a stub-surrogate scenario (scripted fit/predict with ties, negative, huge and "
+            "infinite scores) judged per call, "
             "(c) a best-batch op sequence with the descent oracle, or (d) a whole simulated calibration with extreme model outputs; "
             "non-trivial = at least one successful sample() on a non-empty history; distinct = distinct (mode, sampler class, "
             "loss mode, dims, ops)")
